@@ -31,21 +31,37 @@ VARIABLES tid, l,
   wdone,   \* [Who -> Nat]  messages completely framed on the wire
   wsum,    \* [Who -> Nat]  payload octets of the message being framed so far
   dl,      \* [Who -> Nat]  messages of this sender delivered to the peer
-  krun     \* [Who -> [key, n]]  masking key of the last masked frame and how many consecutive frames carried it
-tvars == <<tid, l, opt, acc, wfs, wdone, wsum, dl, krun>>
+  krun,    \* [Who -> [key, n]]  masking key of the last masked frame and how many consecutive frames carried it
+  poison,  \* [Who -> BOOLEAN]  deviation bookkeeping (see Dev below): a compressed send of this sender was refused
+  overd,   \* [Who -> BOOLEAN]  this sender sent a compressed message larger than the peer's decompression limit
+  failed1009  \* [Who -> BOOLEAN]  the peer of this sender failed the connection with 1009 because of such a message
+tvars == <<tid, l, opt, acc, wfs, wdone, wsum, dl, krun, poison, overd, failed1009>>
+
+(***************************************************************************)
+(* Deviation actions for recorded (not repaired) defects, DESIGN 3.5.      *)
+(* Dev = {} in the strict configuration.  With "F16" in Dev the trace may  *)
+(* additionally contain what the code is known to do after sendMessage()   *)
+(* refused an over-limit message it had already run through the shared     *)
+(* compressor: later messages of that sender are undecodable at the peer   *)
+(* (zlib error escaping data_received, connection failed, messages lost    *)
+(* or altered).                                                            *)
+(***************************************************************************)
+CONSTANT Dev
 
 Ev == Traces[tid][l]
 IsEvent(name) == l <= Len(Traces[tid]) /\ Ev.ev = name /\ l' = l + 1 /\ UNCHANGED tid
 
 TInit == /\ tid \in 1..N /\ l = 1
-         /\ opt = [compress |-> FALSE, limit |-> [w \in Who |-> 0], mask |-> [w \in Who |-> w = "C"]]
+         /\ opt = [compress |-> FALSE, limit |-> [w \in Who |-> 0], mask |-> [w \in Who |-> w = "C"], dlimit |-> [w \in Who |-> 0]]
          /\ acc = [w \in Who |-> <<>>] /\ wfs = [w \in Who |-> Ground]
          /\ wdone = [w \in Who |-> 0] /\ wsum = [w \in Who |-> 0] /\ dl = [w \in Who |-> 0]
          /\ krun = [w \in Who |-> [key |-> <<>>, n |-> 0, bad |-> FALSE]]
+         /\ poison = [w \in Who |-> FALSE] /\ overd = [w \in Who |-> FALSE] /\ failed1009 = [w \in Who |-> FALSE]
 
 TOpen == /\ IsEvent("open") /\ l = 1
-         /\ opt' = [compress |-> Ev.compress, limit |-> [w \in Who |-> Ev.limit[w]], mask |-> [w \in Who |-> Ev.mask[w]]]
-         /\ UNCHANGED <<acc, wfs, wdone, wsum, dl, krun>>
+         /\ opt' = [compress |-> Ev.compress, limit |-> [w \in Who |-> Ev.limit[w]], mask |-> [w \in Who |-> Ev.mask[w]],
+                    dlimit |-> [w \in Who |-> Ev.dlimit[w]]]   \* decompression size limit of receiver w (0 = none)
+         /\ UNCHANGED <<acc, wfs, wdone, wsum, dl, krun, poison, overd, failed1009>>
 
 \* ---- send API: accepted unless over the sender's message limit (sendMessage only); nothing else may be raised
 TSend ==
@@ -60,7 +76,10 @@ TSend ==
         /\ acc' = IF Ev.exc = ""
                   THEN [acc EXCEPT ![w] = Append(@, [id |-> Ev.id, bin |-> Ev.bin, len |-> Ev.len, dnc |-> Ev.dnc, api |-> Ev.api])]
                   ELSE acc
-  /\ UNCHANGED <<opt, wfs, wdone, wsum, dl, krun>>
+        /\ poison' = IF Ev.exc # "" /\ cmpd THEN [poison EXCEPT ![w] = TRUE] ELSE poison
+        /\ overd' = IF Ev.exc = "" /\ cmpd /\ opt.dlimit[Other(w)] > 0 /\ Ev.len > opt.dlimit[Other(w)]
+                    THEN [overd EXCEPT ![w] = TRUE] ELSE overd
+  /\ UNCHANGED <<opt, wfs, wdone, wsum, dl, krun, failed1009>>
 
 \* ---- one written frame: st = [fs, done, sum]
 WriteFrame(w, st, f) ==
@@ -106,22 +125,45 @@ TWire ==
         /\ wfs' = [wfs EXCEPT ![w] = st.fs]
         /\ wdone' = [wdone EXCEPT ![w] = st.done]
         /\ wsum' = [wsum EXCEPT ![w] = st.sum]
-  /\ UNCHANGED <<opt, acc, dl>>
+  /\ UNCHANGED <<opt, acc, dl, poison, overd, failed1009>>
+
+DevF16(w) == ("F16" \in Dev /\ poison[w]) \/ ("F10" \in Dev /\ overd[w])
 
 TDeliver ==
   /\ IsEvent("deliver")
   /\ LET w == Other(Ev.to) IN
-       /\ dl[w] < wdone[w]                       \* only messages completely on the wire can arrive
-       /\ LET m == acc[w][dl[w] + 1] IN
-            /\ m.id = Ev.id /\ m.bin = Ev.bin /\ m.len = Ev.len /\ Ev.same
-       /\ dl' = [dl EXCEPT ![w] = @ + 1]
-  /\ UNCHANGED <<opt, acc, wfs, wdone, wsum, krun>>
+       \* the next undelivered message of the peer that is completely on the wire (strict); under a deviation of this
+       \* sender earlier messages may have been lost
+       \E k \in (dl[w] + 1)..wdone[w] :
+          /\ k = dl[w] + 1 \/ DevF16(w)
+          /\ LET m == acc[w][k] IN m.id = Ev.id /\ m.bin = Ev.bin /\ m.len = Ev.len /\ Ev.same
+          /\ dl' = [dl EXCEPT ![w] = k]
+  /\ UNCHANGED <<opt, acc, wfs, wdone, wsum, krun, poison, overd, failed1009>>
+
+\* the receiver may refuse an over-limit compressed message by failing the connection with 1009 (then nothing of that
+\* sender is delivered any more); it must never deliver it truncated
+TClosedLimit == /\ IsEvent("closed") /\ Ev.code = 1009
+                /\ \E w \in Who : overd[w] /\ failed1009' = [failed1009 EXCEPT ![w] = TRUE]
+                /\ UNCHANGED <<opt, acc, wfs, wdone, wsum, dl, krun, poison, overd>>
 
 TEnd == /\ IsEvent("end")
-        /\ \A w \in Who : dl[w] = Len(acc[w]) /\ wdone[w] = Len(acc[w]) /\ wfs[w] = Ground
-        /\ UNCHANGED <<opt, acc, wfs, wdone, wsum, dl, krun>>
+        \* (a connection lost to a recorded deviation or failed with 1009 ends with unsent / undelivered messages)
+        /\ \/ DevF16("C") \/ DevF16("S") \/ failed1009["C"] \/ failed1009["S"]
+           \/ \A w \in Who : wdone[w] = Len(acc[w]) /\ wfs[w] = Ground /\ dl[w] = Len(acc[w])
+        /\ UNCHANGED <<opt, acc, wfs, wdone, wsum, dl, krun, poison, overd, failed1009>>
 
-TNext == (TOpen \/ TSend \/ TWire \/ TDeliver \/ TEnd) /\ UNCHANGED vars
+\* an exception escaping data_received / the connection being closed is never part of a correct execution
+TDevEscape == /\ IsEvent("escape") /\ DevF16(Other(Ev.at))
+              /\ UNCHANGED <<opt, acc, wfs, wdone, wsum, dl, krun, poison, overd, failed1009>>
+TDevClosed == /\ IsEvent("closed") /\ (DevF16("C") \/ DevF16("S"))
+              /\ UNCHANGED <<opt, acc, wfs, wdone, wsum, dl, krun, poison, overd, failed1009>>
+TDevSend == /\ IsEvent("send") /\ Ev.exc = "Disconnected" /\ (DevF16("C") \/ DevF16("S"))   \* the connection was lost to the deviation
+            /\ UNCHANGED <<opt, acc, wfs, wdone, wsum, dl, krun, poison, overd, failed1009>>
+TDevDeliver == /\ IsEvent("deliver") /\ DevF16(Other(Ev.to)) /\ ~Ev.same
+               /\ dl' = [dl EXCEPT ![Other(Ev.to)] = IF @ < wdone[Other(Ev.to)] THEN @ + 1 ELSE @]
+               /\ UNCHANGED <<opt, acc, wfs, wdone, wsum, krun, poison, overd, failed1009>>
+
+TNext == (TOpen \/ TSend \/ TWire \/ TDeliver \/ TEnd \/ TClosedLimit \/ TDevEscape \/ TDevClosed \/ TDevDeliver \/ TDevSend) /\ UNCHANGED vars
 TraceSpec == TInit /\ Init /\ [][TNext]_<<tvars, vars>>
 
 Progress == TLCSet(tid, IF TLCGet(tid) < l THEN l ELSE TLCGet(tid))
